@@ -82,8 +82,9 @@ CHECKS = {
          "operators that are constraint-free or carry subtype constraints x <= A / x < A, and C04_elim / C04_elim_full "
          "for operators that also carry elimination constraints over base-type alternatives (a resolved constrained "
          "variable lies under a declared alternative); C04_gen / C04_gen_full / C04_gen_annotations prove node typing, leaf "
-         "instances, annotations and the re-fixed tree for operators with ARBITRARY constraints; only 'the declared "
-         "constraints of a leaf hold' for compound or variable alternatives remains per instance (verified checker)",
+         "instances, annotations and the re-fixed tree for operators with ARBITRARY constraints; C04_conc adds 'the declared "
+         "constraints of a leaf hold' for concrete targets/alternatives of any shape; only alternatives that mention "
+         "variables or wildcards remain per instance (verified checker)",
          "4 C04", "Coq proof (every node of every accepted expression, arbitrary operator constraints) + verified per-node checker + engine model correspondence through the real parser"),
  "C15": ("de Bruijn lambda-terms with composite operators: primitive() modelled as unfold + applicative-order "
          "normalisation; result has no composite operator and no redex, equals every normal form reachable by any "
